@@ -302,3 +302,80 @@ Proof.
   pose proof (active_only_started (anchor_conv (s_nstep (s_tick s))) (s_cancelable s) (s_active s) (s_batch s) c) as G.
   destruct (process_owned _ _ _ _) as [am recs]. exact (G H).
 Qed.
+
+(* ================================================================ from landed commands *)
+(* when the collector is idle its batch is empty, and a thread whose ring is not empty is in
+   the registry: what has landed is in the rings the next cycle drains *)
+Lemma landed_idle_in_ring_commands s t c :
+  tracked s -> s_pc s = PIdle -> landed t c s -> In (t, c) (ring_commands s).
+Proof.
+  intros (A & B & C) Hpc [Hr|Hb].
+  - unfold ring_of in Hr. destruct (get_thread s t) as [th|] eqn:Eg; [|destruct Hr].
+    apply in_ring_commands.
+    + destruct (C t th Eg) as [_ [V|[R _]]].
+      * unfold view in V. rewrite Hpc in V. exact V.
+      * rewrite R in Hr. destruct Hr.
+    + unfold ring_of. rewrite Eg. exact Hr.
+  - rewrite (B Hpc) in Hb. destruct (in_batch_empty c Hb).
+Qed.
+
+(* C03 from the threads' side: in any reachable idle state in which the commit of c has landed
+   (its thread has pushed it), c is active or its start has landed too, and the cycle that
+   begins now does not meet a cancel of c: that cycle's one report carries every span of every
+   SubmitSpans for c that has landed, from whatever thread *)
+Theorem landed_trace_is_reported_whole dbg ringcap stackcap qcap h0 h c :
+  let s := fst (run (sys_init dbg ringcap stackcap qcap) h0) in
+  let s1 := fst (run s (ACBegin :: h)) in
+  s_pc s = PIdle -> s_installed s = true -> no_process h ->
+  s_pc s1 = PDrained -> s_cancelable s1 = true ->
+  (exists tc, landed tc (CCommit c) s) ->
+  amem c (s_active s1) = true \/ (exists ts, landed ts (CStart c) s) ->
+  ~ In c (b_drop (s_batch s1)) ->
+  exists recs st n,
+    snd (step s1 ACProcess) = OReport recs st n /\
+    amem c (s_active (fst (step s1 ACProcess))) = false /\
+    forall t sp tk it, landed t (CSubmit sp tk) s -> In it tk -> ti_collect it = c ->
+      incl (coll_cores (mkColl sp (ti_trace it) (ti_parent it))) (map core3 recs).
+Proof.
+  intros s s1 Hpc Hin Hn Hend Hcb [tc Hcommit] Hstart Hnd.
+  assert (Ht : tracked s) by (apply run_tracked; apply tracked_init).
+  destruct (whole_trace_in_rings_is_reported_in_one_report dbg ringcap stackcap qcap h0 h c Hpc Hin Hn Hend Hcb)
+    as (recs & st & n & Hr & Hg & Hall).
+  - exists tc. apply landed_idle_in_ring_commands; assumption.
+  - destruct Hstart as [H|[ts H]]; [left; exact H|right; exists ts; apply landed_idle_in_ring_commands; assumption].
+  - exact Hnd.
+  - exists recs, st, n. split; [exact Hr|split; [exact Hg|]].
+    intros t sp tk it HL Hit Hcid. apply (Hall t sp tk it); auto.
+    apply landed_idle_in_ring_commands; assumption.
+Qed.
+
+(* ================================================================ C04 over the scheduler *)
+(* a cancel that is in a registered thread's ring when a cycle begins (cancelable
+   configuration): whatever else that cycle drains -- the start, span sets, even the commit of
+   the same trace -- its report carries no record of c (records are tagged with the collect
+   id they were produced for; the tag is ghost, the report itself is [map snd]), and c is
+   inactive afterwards *)
+Theorem cancel_in_rings_silences_the_trace dbg ringcap stackcap qcap h0 h c :
+  let s := fst (run (sys_init dbg ringcap stackcap qcap) h0) in
+  let s1 := fst (run s (ACBegin :: h)) in
+  s_pc s = PIdle -> s_installed s = true -> no_process h ->
+  s_pc s1 = PDrained -> s_cancelable s1 = true ->
+  (exists t, In (t, CDrop c) (ring_commands s)) ->
+  exists tagged_recs st n,
+    snd (step s1 ACProcess) = OReport (map snd tagged_recs) st n /\
+    (forall r, ~ In (c, r) tagged_recs) /\
+    amem c (s_active (fst (step s1 ACProcess))) = false.
+Proof.
+  intros s s1 Hpc Hin Hn Hend Hcb [t Ht].
+  pose proof (reachable_cycle_drains_every_ring dbg ringcap stackcap qcap h0 h Hpc Hin Hn Hend t (CDrop c) Ht) as Hd.
+  fold s in Hd. fold s1 in Hd. cbn [in_batch] in Hd.
+  pose proof (fun r => cancel_suppresses (anchor_conv (s_nstep (s_tick s1))) (s_active s1) (s_batch s1) c r Hd) as Hsup.
+  pose proof (drop_removes (anchor_conv (s_nstep (s_tick s1))) (s_active s1) (s_batch s1) c Hd) as Hgone.
+  unfold step. cbv beta iota zeta. change (s_pc (s_tick s1)) with (s_pc s1). rewrite Hend.
+  change (s_cancelable (s_tick s1)) with (s_cancelable s1). rewrite Hcb.
+  change (s_active (s_tick s1)) with (s_active s1). change (s_batch (s_tick s1)) with (s_batch s1).
+  unfold process.
+  destruct (process_owned (anchor_conv (s_nstep (s_tick s1))) true (s_active s1) (s_batch s1)) as [am recs].
+  cbn [fst snd] in *. exists recs, (stats_of am), (lenN (s_registry (s_tick s1))).
+  split; [reflexivity|split; [exact Hsup|exact Hgone]].
+Qed.
